@@ -568,4 +568,28 @@ def bmCacheOf (st : BMCacheSt) (bid : Int) : List Int :=
   | some e => e.2
   | none => List.replicate MAX_BMs (-1)
 
+/-! ## listing results are values: ptt.showBoardList allocates the list it returns
+
+A caller (the bbs conversion loop, a concurrently served request) still holds the returned list while the next listing
+runs.  `Heap` = the lists handed out so far; `fresh` = the list is made by the call (what the source does, regenerated as
+`Gen.showBoardListFresh`); with `fresh = false` every call hands out the one pooled list again. -/
+
+structure Heap (α : Type) where
+  cells : List (List α)
+
+/-- one listing call writing `res`: the new heap and the handle the caller holds -/
+def handOut {α} (fresh : Bool) (h : Heap α) (res : List α) : Heap α × Nat :=
+  if fresh then ({ cells := h.cells ++ [res] }, h.cells.length)
+  else ({ cells := res :: h.cells.drop 1 }, 0)
+
+def deref {α} (h : Heap α) (k : Nat) : List α := h.cells.getD k []
+
+/-- a history of listing calls: the final heap and the handles, in call order -/
+def runListings {α} (fresh : Bool) : Heap α → List (List α) → Heap α × List Nat
+  | h, [] => (h, [])
+  | h, r :: rs =>
+    let (h1, k) := handOut fresh h r
+    let (h2, ks) := runListings fresh h1 rs
+    (h2, k :: ks)
+
 end PttVerif.C07
